@@ -70,6 +70,15 @@ Theorem C04_claim_exclusive : forall s,
 Proof. exact claim_exclusive. Qed.
 Print Assumptions C04_claim_exclusive.
 
+(* --- a status update that originates from the master (the answers to the reconciliation after a
+       re-subscription: TASK_RUNNING, agent id, no executor id, for every running task) changes
+       nothing at all: in particular no owned task loses its lock.  The proof rests on
+       gen/Gen_UtsWrites.v, regenerated from updateTaskStatus on every run: the fields the lock
+       predicate reads are written only when the update carries them. *)
+Theorem C04_master_update_keeps_locks : forall s, step s ORecon = (s, out_rc 0).
+Proof. exact master_update_changes_nothing. Qed.
+Print Assumptions C04_master_update_keeps_locks.
+
 (* --- "every detector is part of at most one active environment", creations serialised: the
        detectors of all listed environments, put end to end, contain no detector twice. *)
 Theorem C04_detector_seq : forall s, reachable_serial s -> NoDup (active_dets (s_envs s)).
